@@ -84,6 +84,22 @@ func sibling(s, kind string, pos int) string {
 
 func toU(s string) string { return strings.ReplaceAll(strings.ReplaceAll(s, "T", "U"), "t", "u") }
 
+// partialU writes the T selected by the mask (by position, repeating every 64 letters) as U.
+func partialU(s string, mask uint64) string {
+	b := []byte(s)
+	for i := range b {
+		if (mask>>(uint(i)%64))&1 == 1 {
+			switch b[i] {
+			case 'T':
+				b[i] = 'U'
+			case 't':
+				b[i] = 'u'
+			}
+		}
+	}
+	return string(b)
+}
+
 // flipCase lower-cases the letters selected by the mask (repeating every 64 letters, shifted per block).
 func flipCase(s string, mask uint64) string {
 	b := []byte(s)
@@ -230,9 +246,12 @@ func check(c Case) error {
 			if err != nil {
 				return err
 			}
-			for i, spelled := range []string{rna, flipCase(rna, c.CaseMask), dna} { // poly also takes T under RNA
+			// ... and two spellings in which only some T are written U (sequences pasted together from DNA and RNA
+			// records): if the library takes them as RNA at all, they are the same molecule
+			mixed1, mixed2 := partialU(dna, c.CaseMask), partialU(dna, ^c.CaseMask>>1)
+			for i, spelled := range []string{rna, flipCase(rna, c.CaseMask), dna, mixed1, flipCase(mixed2, c.CaseMask>>2)} { // poly also takes T under RNA
 				hr, err := hash(spelled, "RNA", circ, ds)
-				if err != nil && i == 2 && strings.ContainsAny(dna, "Tt") {
+				if err != nil && i >= 2 && strings.ContainsAny(dna, "Tt") {
 					continue // the property does not say that the DNA spelling has to be taken under type RNA
 				}
 				if err != nil {
